@@ -230,6 +230,10 @@ func runModel(c *Ctx) {
 	qSplits := compile("[splits($re; $flags)]", "$re", "$flags")
 	qGsubId := compile(`gsub("(?<zz>" + $re + ")"; .zz; $flags)`, "$re", "$flags")
 	qSubId := compile(`sub("(?<zz>" + $re + ")"; .zz; $flags)`, "$re", "$flags")
+	qTest := compile("test($re; $flags)", "$re", "$flags")
+	qCapture := compile("[capture($re; $flags)]", "$re", "$flags")
+	qScan := compile("[scan($re; $flags)]", "$re", "$flags")
+	qSplit2 := compile("split($re; $flags)", "$re", "$flags")
 
 	maxExh := 3
 	if c.Tier == "thorough" {
@@ -333,6 +337,21 @@ func runModel(c *Ctx) {
 			}
 			c.Emit("(gsubid %s %s %s %s %s)", SexpVal(re), SexpVal(flags), SexpVal(s), SexpVal(subXs), rs(run1(qSubId, s, re, flags)))
 			c.Count("splits/sub/gsub")
+			// test / capture / scan / split/2 through their transcriptions
+			fullAny := make([]any, len(all))
+			for i, x := range all {
+				fullAny[i] = intsAny(x)
+			}
+			first := g.FindAllStringSubmatchIndex(s, 1)
+			firstFull := make([]any, len(first))
+			for i, x := range first {
+				firstFull[i] = intsAny(x)
+			}
+			c.Emit("(test %s %s %s %s %s %s %s)", SexpVal(re), SexpVal(flags), SexpVal(s), SexpVal(g.MatchString(s)), SexpVal(firstFull), SexpVal(fullAny), rs(run1(qTest, s, re, flags)))
+			c.Emit("(capture %s %s %s %s %s %s)", SexpVal(re), SexpVal(flags), SexpVal(s), SexpVal(namesAny), SexpVal(xsAny), rs(run1(qCapture, s, re, flags)))
+			c.Emit("(scan %s %s %s %s %s)", SexpVal(re), SexpVal(flags), SexpVal(s), SexpVal(fullAny), rs(run1(qScan, s, re, flags)))
+			c.Emit("(split2 %s %s %s %s %s)", SexpVal(re), SexpVal(flags), SexpVal(s), SexpVal(allAny), rs(run1(qSplit2, s, re, flags)))
+			c.Count("test/capture/scan/split2")
 		}
 	}
 }
